@@ -29,6 +29,7 @@ func init() {
 				"of lists, URLs and cross-references between sections; the environment variables.",
 			Rules: map[string]string{"C20-R1": "zero / negative rejection of every numeric setting", "C20-R2": "subnet key length family bounds",
 				"C20-R3": "section table completeness", "C20-R4": "divisor provenance", "C20-R5": "validated settings are copied into the constructor fields of the same meaning",
+				"C20-R8": "builder flags computed over all server groups accumulate (a later group cannot switch off what an earlier group needs, e.g. the profile database)",
 				"C20-R6": "DDR record validation: DoH port needs a path, hints must be of their address family"},
 		}})
 }
@@ -176,6 +177,7 @@ var c20Skip = map[string]string{
 }
 
 func runC20(c *an.Ctx) {
+	c20Accumulators(c)
 	// ---- R7: the validated TCP limits reach every stream transport
 	c.Floor("C20-R7", 2)
 	c.Borrow("C20-R7", runC18, func(o an.Obligation) bool { return o.Rule == "C18-R6" && strings.Contains(o.Key, "NewListener") })
@@ -653,4 +655,61 @@ func c20DDR(c *an.Ctx) {
 			return ""
 		},
 	})
+}
+
+// c20Accumulators checks the builder's flags that summarise all server groups:
+// a field of the builder assigned inside the loop over the groups must combine
+// the group's value with the field's previous value; a plain assignment makes
+// the last group win, and the components the earlier groups need (the profile
+// database) are replaced by stubs that panic when called.
+func c20Accumulators(c *an.Ctx) {
+	c.Floor("C20-R8", 1)
+	const k = "cmd.(*builder).setServerGroupProperties"
+	fn := c.Fn(k)
+	if fn == nil {
+		c.Und("C20-R8", k, token.NoPos, "anchor not found")
+		return
+	}
+	c.Analysed(k)
+	loops := naturalLoops(fn)
+	inLoop := func(b *ssa.BasicBlock) bool {
+		for _, l := range loops {
+			if l.blocks[b] {
+				return true
+			}
+		}
+		return false
+	}
+	loads := map[string]bool{}
+	an.Instrs(fn, func(in ssa.Instruction) {
+		if ld, ok := in.(*ssa.UnOp); ok && ld.Op == token.MUL {
+			if typ, f, _, ok := an.FieldOf(ld.X); ok && typ == "cmd.builder" && inLoop(ld.Block()) {
+				loads[f] = true
+			}
+		}
+	})
+	n := 0
+	an.Instrs(fn, func(in ssa.Instruction) {
+		st, ok := in.(*ssa.Store)
+		if !ok || !inLoop(st.Block()) {
+			return
+		}
+		typ, f, _, ok := an.FieldOf(st.Addr)
+		if !ok || typ != "cmd.builder" {
+			return
+		}
+		if b, isBool := st.Val.Type().Underlying().(*types.Basic); !isBool || b.Kind() != types.Bool {
+			return
+		}
+		n++
+		key := k + " accumulates " + f
+		if loads[f] {
+			c.Ok("C20-R8", key, st.Pos(), "the new value is computed from the field's previous value and the group's")
+		} else {
+			c.Bad("C20-R8", key, st.Pos(), "the flag is overwritten for every server group, so the last group decides alone: a component that an earlier group needs is disabled and its stub panics on the first request")
+		}
+	})
+	if n == 0 {
+		c.Und("C20-R8", k+" flags", fn.Pos(), "no per-group flag assignment found in the loop")
+	}
 }
